@@ -132,6 +132,11 @@ def stream_case(rng, mode, seeks=True, near_limit=False, n_ops=None, w_pref=None
     iv, cls = stream_iv(rng, mode, bs, key)
     c = Case("stream", mode, bs, w, key, iv, cls_iv=cls)
     n_ops = n_ops or rng.randrange(1, 8)
+    if mode != "ofb" and rng.random() < 0.12:
+        # positioned before any data was processed, then exported at once (whatever is derived lazily on first use)
+        p = rng.choice([bs, 2 * bs, rng.randrange(1, 2 ** 20) * bs, rng.randrange(1, 2 ** 20) * bs + rng.randrange(1, bs)])
+        c.ops += [f"seek u64 {p}", "corestate"]
+        c.meta["cls_early_export"] = 1
     if rng.random() < 0.04:
         c.meta["cls_many"] = 1
         for _ in range(rng.randrange(30, 80)):
@@ -165,6 +170,9 @@ def core_case(rng, mode, n_ops=None):
     key = rb(rng, 16)
     iv, cls = stream_iv(rng, mode, bs, key)
     c = Case("core", mode, bs, w, key, iv, cls_iv=cls)
+    if mode != "ofb" and rng.random() < 0.12:
+        c.ops += [f"setpos {rng.choice([1, 2, rng.randrange(1, 2 ** 20)])}", "ivstate"]
+        c.meta["cls_early_export"] = 1
     for _ in range(n_ops or rng.randrange(1, 7)):
         r = rng.random()
         if r < 0.2:
